@@ -253,6 +253,8 @@ out:
 			if err != nil || targetDepth < 1 {
 				return
 			}
+			// deeper iterations have no room in the search buffers
+			targetDepth = min(targetDepth, MaxSearchDepth)
 		}
 	}
 	var endtime time.Time
